@@ -1095,9 +1095,10 @@ def unsubstituted_validation(text, e):
     return False
 
 
-def reading_verdict(text, e, m):
+def reading_verdict(text, e, m, twin=None):
     """None, or what is wrong with the readings of one text. e: harness entry {env, file, validator}; m: model entry
-    (for a text with a `${var}` reference: of the text after the substitution)"""
+    (for a text with a `${var}` reference: of the text after the substitution); twin: (text, harness entry) of the text
+    that says the contents of the referenced variables literally"""
     fcls = scalar_class(e["file"])
     q = json.dumps(text)
     subst = text in gen_config.DIALECT_SUBST
@@ -1111,7 +1112,21 @@ def reading_verdict(text, e, m):
     if not subst and vlib.canon(e["env"]) != vlib.canon(e["file"]):
         return (f"the text {q} is read as {json.dumps(e['file'])} in the file and as {json.dumps(e['env'])} in an "
                 f"environment variable")
+    if twin is not None and scalar_class(twin[1]["file"]) != "unreadable":
+        # the file that refers to a variable against the file that says the contents literally at the same place and
+        # against the property's own variable carrying that text (c20_quoted_reference_is_string,
+        # c20_plain_reference_reads_as_variable)
+        tq = json.dumps(twin[0])
+        if vlib.canon(e["file"]) != vlib.canon(twin[1]["file"]):
+            return (f"the file saying {q} (a reference to an environment variable) is read as {json.dumps(e['file'])}, the "
+                    f"file saying the contents literally, {tq}, as {json.dumps(twin[1]['file'])}")
+        if vlib.canon(e["file"]) != vlib.canon(twin[1]["env"]):
+            return (f"the file saying {q} (a reference to an environment variable) is read as {json.dumps(e['file'])}, the "
+                    f"property's own variable carrying {tq} as {json.dumps(twin[1]['env'])}")
     if m is not None and m.get("modelled"):
+        if subst and m.get("substituted") != gen_config.DIALECT_SUBST[text]:
+            return (f"generator and model disagree about the file after its references are resolved: {q} -> "
+                    f"{json.dumps(gen_config.DIALECT_SUBST[text])} (generator), {json.dumps(m.get('substituted'))} (model)")
         if not same_reading(text, e["file"], m["reading"]):
             return (f"the loader reads the text {q} as {json.dumps(e['file'])}, the proved reading model says "
                     f"{json.dumps(m['reading'])}")
@@ -1123,21 +1138,32 @@ def reading_verdict(text, e, m):
 
 def reading_stream(R, exe, texts):
     st = collections.Counter()
-    impl = vlib.run_cases([exe], [{"fam": "config", "op": "readings", "raw": texts}])[0]
-    mtexts = [gen_config.DIALECT_SUBST.get(t, t) for t in texts]      # the model reads what the file says after substitution
+    # the twins of the texts that refer to variables (what the file says literally) are read too
+    texts = list(dict.fromkeys(list(texts) + [gen_config.DIALECT_SUBST[t] for t in texts if t in gen_config.DIALECT_SUBST]))
+    impl = vlib.run_cases([exe], [{"fam": "config", "op": "readings", "raw": texts, "refs": gen_config.REFS}])[0]
+    # the model resolves the references itself (Config.substitute) and reads what the file then says
     model = vlib.res_of(vlib.run_cases(vlib.driver_cmd(), [{"fam": "config", "op": "dialect", "type": "string",
-                                                           "want": "string", "texts": mtexts}])[0])
+                                                           "want": "string", "texts": texts,
+                                                           "refs": gen_config.REFS}])[0])
     if not isinstance(impl, list) or len(impl) != len(texts) or not isinstance(model, list) or len(model) != len(texts):
         R.violation("dialect: harness or driver do not report readings", {"impl": impl, "model": model}, no_input=True)
         return st, set(), {}
     nontriv = set()
     shown = 0
+    by_text = dict(zip(texts, impl))
     for t, e, m in zip(texts, impl, model):
         st["reading_texts"] += 1
         st["reading_" + scalar_class(e["file"])] += 1
         if not m.get("modelled"):
             st["reading_beyond_model"] += 1
-        why = reading_verdict(t, e, m)
+        twin = None
+        if t in gen_config.DIALECT_SUBST:
+            st["reading_references"] += 1
+            if t[:1] in "\"'":
+                st["reading_references_quoted"] += 1
+            tw = gen_config.DIALECT_SUBST[t]
+            twin = (tw, by_text[tw])
+        why = reading_verdict(t, e, m, twin)
         if why is None:
             if e["file"] != t:
                 nontriv.add(("reading", t))
@@ -1149,7 +1175,8 @@ def reading_stream(R, exe, texts):
         st["reading_violations"] += 1
         if shown < 3:
             shown += 1
-            R.violation("dialect: " + why, {"kind": "reading", "text": t, "impl": e, "model": m})
+            R.violation("dialect: " + why, dict({"kind": "reading", "text": t, "impl": e, "model": m},
+                                                **({"refs": gen_config.REFS, "twin": twin[0], "impl_twin": twin[1]} if twin else {})))
     return st, nontriv, {t: m for t, m in zip(texts, model)}
 
 
@@ -1196,8 +1223,11 @@ def dialect_judge(c, obs, model):
     agrees = False
     if model is not None and model.get("modelled"):
         agrees = True
-        for side, (u, l), m in (("the file saying the text unquoted", (fu, fl), model["file"]),
-                                ("a variable carrying the text", (eu, el), model["env"])):
+        for side, (u, l), m in (("the file saying the text" + (" (variables of the process: " + json.dumps(
+                                     {k: v for k, v in c["file_case"].get("refs", {}).items() if k in c["text"]}) + ")"
+                                     if "twin" in c else " unquoted"), (fu, fl), model["file"]),
+                                ("a variable carrying " + (json.dumps(c["twin"]) if "twin" in c else "the text"),
+                                 (eu, el), model["env"])):
             says, mu, ml = dialect_expect(m, default)
             if not says:
                 agrees = False
@@ -1228,10 +1258,14 @@ def dialect_stream(R, exe, readings):
     model = {}
     for typ in ("string", "any"):
         out = vlib.res_of(vlib.run_cases(vlib.driver_cmd(), [{"fam": "config", "op": "dialect", "type": typ, "want": "string",
-                                                             "texts": texts}])[0])
+                                                             "texts": texts, "refs": gen_config.REFS}])[0])
         if not isinstance(out, list) or len(out) != len(texts):
             R.violation("dialect: the driver does not answer", {"model": out}, no_input=True)
             return st, set()
+        for t, o in zip(texts, out):
+            if t in gen_config.REF_TWINS and o.get("modelled") and o.get("substituted") != gen_config.REF_TWINS[t]:
+                R.violation("dialect: generator and model disagree about the file after its references are resolved",
+                            {"text": t, "generator": gen_config.REF_TWINS[t], "model": o}, no_input=True)
         model[typ] = dict(zip(texts, out))
     icases, index = [], []
     defaults = {}
@@ -1257,6 +1291,8 @@ def dialect_stream(R, exe, readings):
         m = model[c["type"]][c["text"]]
         st["dialect_cases"] += 1
         st["dialect_loads"] += 2
+        if "twin" in c:
+            st["dialect_reference_cases"] += 1
         bad, known = dialect_judge(c, obs, m)
         if known:
             st["dialect_known_retyped"] += 1
@@ -1647,17 +1683,26 @@ def replay(R, path):
         if bad:
             R.violation("replay: " + bad[0], dict(p, impl=obs, all=bad))
     elif kind == "reading":
-        e = vlib.run_cases([exe], [{"fam": "config", "op": "readings", "raw": [p["text"]]}])[0][0]
+        refs = p.get("refs", gen_config.REFS)
+        twin = None
+        tw = p.get("twin", gen_config.DIALECT_SUBST.get(p["text"]))
+        raw = [p["text"]] + ([tw] if tw is not None else [])
+        es = vlib.run_cases([exe], [{"fam": "config", "op": "readings", "raw": raw, "refs": refs}])[0]
+        e = es[0]
+        if tw is not None:
+            twin = (tw, es[1])
+            print("variables of the process:", json.dumps({k: v for k, v in refs.items() if k in p["text"]}))
+            print("literal twin            :", json.dumps(tw), "-> file", json.dumps(es[1]["file"]), ", variable", json.dumps(es[1]["env"]))
         print("text                    :", json.dumps(p["text"]))
         print("validation of the file  :", e["validator"])
         print("loader, from the file   :", json.dumps(e["file"]))
         print("loader, from a variable :", json.dumps(e["env"]))
         print("reading model           :", json.dumps((p.get("model") or {}).get("reading")))
-        why = reading_verdict(p["text"], e, p.get("model"))
+        why = reading_verdict(p["text"], e, p.get("model"), twin)
         if why and unsubstituted_validation(p["text"], e):
             print("(the validation judged the unresolved reference: fixes/C20-3.patch)")
         elif why:
-            R.violation("replay: " + why, {"kind": "reading", "text": p["text"], "impl": e, "model": p.get("model")})
+            R.violation("replay: " + why, dict(p, impl=e))
     elif kind == "dialect":
         c = p["case"]
         obs = dialect_observe(exe, c)
